@@ -1,3 +1,203 @@
-From TFL Require Import Model.RTLStructure.
-Theorem C17_placeholder : True. Proof. exact I. Qed.
-Print Assumptions C17_placeholder.
+(* C17 — Ensemble structures use every feature, fill each lattice, respect
+   monotone slots.  Property theorems only; proofs live in
+   Proofs/RTLStructure.v and Proofs/Ensembles.v.
+
+   All random sources are oracles: the theorems hold for EVERY function that
+   meets the stated hypothesis (shuffle: returns a permutation of its
+   argument; choice: returns an element / a duplicate-free sub-list of the
+   requested size), hence for every seed. *)
+From Coq Require Import Permutation.
+From TFL Require Import Model.RTLStructure Model.Ensembles Proofs.RTLStructure Proofs.Ensembles.
+Open Scope nat_scope.
+
+(* ================= RTL: _get_rtl_structure ========================= *)
+
+(* An accepted configuration has at least one input and enough slots. *)
+Theorem C17_rtl_accepts : forall sh1 sh2 cfg s, rtl_structure cfg sh1 sh2 = Some s ->
+  0 < n_inputs (c_input cfg) <= c_num cfg * c_rank cfg.
+Proof. exact rtl_accepted_closed. Qed.
+Print Assumptions C17_rtl_accepts.
+
+(* num_lattices lattices; every lattice has exactly lattice_rank inputs and
+   every monotonicity tuple has lattice_rank flags. *)
+Theorem C17_rtl_rank : forall sh1 sh2, perm_oracle sh1 -> perm_oracle sh2 ->
+  forall cfg s, rtl_structure cfg sh1 sh2 = Some s ->
+  length (all_lattices s) = c_num cfg /\
+  forall m ls, In (m, ls) s -> length m = c_rank cfg /\ forall lat, In lat ls -> length lat = c_rank cfg.
+Proof. exact rtl_rank_closed. Qed.
+Print Assumptions C17_rtl_rank.
+
+(* Every flattened input index is used by some lattice, and only valid
+   indices are used. *)
+Theorem C17_rtl_coverage : forall sh1 sh2, perm_oracle sh1 -> perm_oracle sh2 ->
+  forall cfg s, rtl_structure cfg sh1 sh2 = Some s ->
+  (forall i, i < length (flatten (c_input cfg)) -> exists lat, In lat (all_lattices s) /\ In i lat) /\
+  (forall lat i, In lat (all_lattices s) -> In i lat -> i < length (flatten (c_input cfg))).
+Proof. exact rtl_coverage_closed. Qed.
+Print Assumptions C17_rtl_coverage.
+
+(* Every input is used q or q+1 times, q = slots // inputs >= 1; usage counts
+   of two inputs differ by at most one. *)
+Theorem C17_rtl_balanced : forall sh1 sh2, perm_oracle sh1 -> perm_oracle sh2 ->
+  forall cfg s, rtl_structure cfg sh1 sh2 = Some s ->
+  let n := length (flatten (c_input cfg)) in
+  let q := (c_num cfg * c_rank cfg) / n in
+  1 <= q /\
+  (forall i, i < n -> q <= usage s i <= q + 1) /\
+  (forall i j, i < n -> j < n -> usage s i <= usage s j + 1).
+Proof. exact rtl_balanced_closed. Qed.
+Print Assumptions C17_rtl_balanced.
+
+(* Position p of a lattice carries monotonicity flag 1 exactly when the input
+   wired to it was supplied under 'increasing' (input_mono = the key under
+   which that flattened index was supplied); the label max(monotonicities) of
+   the lattice output is 0 or 1, and 1 exactly when the lattice has an
+   'increasing' input. *)
+Theorem C17_rtl_monotone_wiring : forall sh1 sh2, perm_oracle sh1 -> perm_oracle sh2 ->
+  forall cfg s, rtl_structure cfg sh1 sh2 = Some s ->
+  forall m ls lat, In (m, ls) s -> In lat ls ->
+  (forall p, p < c_rank cfg -> nth p m 0 = input_mono (c_input cfg) (nth p lat 0)) /\
+  (out_label m = 0 \/ out_label m = 1) /\
+  (out_label m = 1 <-> exists i, In i lat /\ input_mono (c_input cfg) i = 1).
+Proof. exact rtl_wiring_closed. Qed.
+Print Assumptions C17_rtl_monotone_wiring.
+
+(* The flattened input (RTL.call concatenates in the same sorted-key order):
+   index i was supplied under 'increasing' iff it is among the first
+   n_increasing indices. *)
+Theorem C17_rtl_input_layout : forall cfg i, i < length (flatten (c_input cfg)) ->
+  (input_mono (c_input cfg) i = 1 <-> i < list_sum (sizes_of (in_inc (c_input cfg)))) /\
+  (input_mono (c_input cfg) i = 0 <-> list_sum (sizes_of (in_inc (c_input cfg))) <= i).
+Proof. exact rtl_input_layout_closed. Qed.
+Print Assumptions C17_rtl_input_layout.
+
+(* RTL.call: the lattices routed to the 'increasing' output are exactly those
+   with an 'increasing' input; no lattice is lost or duplicated. *)
+Theorem C17_rtl_output_routing : forall sh1 sh2, perm_oracle sh1 -> perm_oracle sh2 ->
+  forall cfg s, rtl_structure cfg sh1 sh2 = Some s ->
+  (forall lat, In lat (snd (rtl_outputs s)) -> exists i, In i lat /\ input_mono (c_input cfg) i = 1) /\
+  (forall lat, In lat (fst (rtl_outputs s)) -> forall i, In i lat -> input_mono (c_input cfg) i <> 1) /\
+  Permutation (fst (rtl_outputs s) ++ snd (rtl_outputs s)) (all_lattices s).
+Proof. exact rtl_outputs_closed. Qed.
+Print Assumptions C17_rtl_output_routing.
+
+(* The structure is a function of the configuration and of the two
+   permutations the oracle returns for it (nothing else of the random source
+   is used). *)
+Theorem C17_rtl_deterministic : forall cfg sh1 sh2 sh1' sh2',
+  let inputs := flatten (c_input cfg) in
+  let total := c_num cfg * c_rank cfg in
+  sh1 inputs = sh1' inputs ->
+  sh2 (firstn total (tile (sh1 inputs) (1 + total / length inputs))) =
+  sh2' (firstn total (tile (sh1 inputs) (1 + total / length inputs))) ->
+  rtl_structure cfg sh1 sh2 = rtl_structure cfg sh1' sh2'.
+Proof. exact rtl_deterministic_closed. Qed.
+Print Assumptions C17_rtl_deterministic.
+
+(* hypotheses are satisfiable *)
+Example C17_rtl_example :
+  perm_oracle (fun l => l) /\
+  rtl_structure (mkcfg 3 2 true 10 (mkin (Some (Multi [2])) (Some (Single 2)))) (fun l => l) (fun l => l)
+  = Some [([0; 1], [[2; 1]; [3; 0]]); ([1; 1], [[0; 1]])].
+Proof. split. exact perm_oracle_id. vm_compute. reflexivity. Qed.
+
+(* ================= set_random_lattice_ensemble =====================
+   choice1_oracle ch1: np.random.choice(a) returns an element of a non-empty a;
+   choice2_oracle ch2: np.random.choice(a, size, replace=False) on distinct
+   items returns size distinct items of a.                                  *)
+
+(* num_lattices lattices of exactly lattice_rank features each *)
+Theorem C17_random_rank : forall ch1 ch2, choice1_oracle ch1 -> choice2_oracle ch2 ->
+  forall rank n num lats, random_ensemble ch1 ch2 n num rank = Some lats ->
+  length lats = num /\ forall l, In l lats -> length l = rank.
+Proof. exact random_rank_closed. Qed.
+Print Assumptions C17_random_rank.
+
+(* no feature is repeated inside a lattice; only features 0..n-1 occur *)
+Theorem C17_random_no_repeat : forall ch1 ch2, choice1_oracle ch1 -> choice2_oracle ch2 ->
+  forall rank n num lats, random_ensemble ch1 ch2 n num rank = Some lats ->
+  forall l, In l lats -> NoDup l /\ forall f, In f l -> f < n.
+Proof. exact random_no_repeat_closed. Qed.
+Print Assumptions C17_random_no_repeat.
+
+(* every feature is in some lattice (whenever the function returns) *)
+Theorem C17_random_coverage : forall ch1 ch2, choice1_oracle ch1 -> choice2_oracle ch2 ->
+  forall rank n num lats, random_ensemble ch1 ch2 n num rank = Some lats ->
+  forall f, f < n -> exists l, In l lats /\ In f l.
+Proof. exact random_coverage_closed. Qed.
+Print Assumptions C17_random_coverage.
+
+(* with enough slots and lattice_rank <= number of features it does return
+   (otherwise np.random.choice raises ValueError) *)
+Theorem C17_random_total : forall ch1 ch2, choice1_oracle ch1 -> choice2_oracle ch2 ->
+  forall rank n num, n <= num * rank -> rank <= n ->
+  exists lats, random_ensemble ch1 ch2 n num rank = Some lats.
+Proof. exact random_total_closed. Qed.
+Print Assumptions C17_random_total.
+
+Example C17_random_example :
+  (choice1_oracle (fun _ nf => hd 0 nf) /\ choice2_oracle (fun _ av sz => firstn sz av)) /\
+  random_ensemble (fun _ nf => hd 0 nf) (fun _ av sz => firstn sz av) 3 2 2 = Some [[0; 1]; [2; 0]].
+Proof. split. exact choice_oracles_example. vm_compute. reflexivity. Qed.
+
+(* ================= Crystals: all-pairs prefitting cover ============ *)
+(* every feature pair is together in some prefitting lattice *)
+Theorem C17_cover_all_pairs : forall sh, pair_perm_oracle sh ->
+  forall n rank i j, i < j -> j < n ->
+  exists l, In l (pairs_cover sh n rank) /\ In i l /\ In j l.
+Proof. exact cover_all_pairs_closed. Qed.
+Print Assumptions C17_cover_all_pairs.
+
+(* the cover lattices have at most lattice_rank (>= 2) distinct features, and
+   (for >= 2 features) every feature is in one of them *)
+Theorem C17_cover_rank_and_coverage : forall sh, pair_perm_oracle sh ->
+  forall n rank, 2 <= rank ->
+  (forall l, In l (pairs_cover sh n rank) -> length l <= rank /\ NoDup l /\ forall f, In f l -> f < n) /\
+  (2 <= n -> forall f, f < n -> exists l, In l (pairs_cover sh n rank) /\ In f l).
+Proof. exact cover_rows_closed. Qed.
+Print Assumptions C17_cover_rank_and_coverage.
+
+(* ================= Crystals: _get_final_crystal_lattices ===========
+   The prefitting scores (torsions, laplacians) are inputs.  The code only
+   `assert`s that its use allocation sums to the number of slots; that it
+   returns at all (crystal_lattices = Some) is therefore the hypothesis: the
+   allocation raises for zero importance scores (known finding D13,
+   int(round(nan))).  Torsion scores are sums of squares, hence >= 0. *)
+Theorem C17_crystals_rank_and_coverage : forall c lats,
+  Forall (Forall (fun x => (0 <= x)%Q)) (k_T c) ->
+  crystal_lattices c = Some lats ->
+  exists uses, crystal_uses c = Some uses /\ zsum uses = Z.of_nat (k_num c * k_rank c) /\
+  length lats = k_num c /\ (forall l, In l lats -> length l = k_rank c) /\
+  (forall f, f < k_n c -> (1 <= nth f uses 0%Z)%Z -> exists l, In l lats /\ In f l).
+Proof. exact crystals_closed. Qed.
+Print Assumptions C17_crystals_rank_and_coverage.
+
+(* With non-negative laplacian scores as well and enough slots the allocation
+   gives every feature at least one use, so every feature is in some lattice
+   (hypothesis: the function returned, i.e. the allocation did not raise). *)
+Theorem C17_crystals_every_feature_used : forall c lats,
+  Forall (Forall (fun x => (0 <= x)%Q)) (k_T c) -> Forall (fun x => (0 <= x)%Q) (k_lap c) ->
+  k_n c <= k_num c * k_rank c ->
+  crystal_lattices c = Some lats ->
+  length lats = k_num c /\ (forall l, In l lats -> length l = k_rank c) /\
+  (forall f, f < k_n c -> exists l, In l lats /\ In f l).
+Proof. exact crystals_full_closed. Qed.
+Print Assumptions C17_crystals_every_feature_used.
+
+(* The hypothesis "the function returned" cannot be dropped (known finding
+   D13): a valid configuration whose allocation raises, on the model. *)
+Theorem C17_crystals_allocation_refuted : exists c,
+  Forall (Forall (fun x => (0 <= x)%Q)) (k_T c) /\ Forall (fun x => (0 <= x)%Q) (k_lap c) /\
+  k_n c <= k_num c * k_rank c /\ k_rank c < k_n c /\
+  crystal_uses c = None /\ crystal_lattices c = None.
+Proof. exact crystals_allocation_refuted. Qed.
+Print Assumptions C17_crystals_allocation_refuted.
+
+Example C17_crystals_example :
+  let c := mkcr 3 2 2 1000 [[0; 1; 1#2]; [1; 0; 1#4]; [1#2; 1#4; 0]]%Q [1#4; 1#8; 1#8]%Q in
+  Forall (Forall (fun x => (0 <= x)%Q)) (k_T c) /\ crystal_uses c = Some [1; 2; 1]%Z /\
+  crystal_lattices c = Some [[2; 1]; [0; 1]].
+Proof. cbv zeta. split; [|split].
+  - repeat constructor; discriminate.
+  - vm_compute. reflexivity.
+  - vm_compute. reflexivity. Qed.
